@@ -9,7 +9,7 @@ EXPLANATION = ("Static MIR rules on crate mlar: (R16.1) in get_extracted_path th
                "the result of get_extracted_path(output_dir, fname); (R16.3) extract hands create_file a canonicalized directory, every FileWriter "
                "path comes from create_file's result, FileWriter::write opens only self.path; (R16.4) census of every filesystem-mutating call of "
                "mlar against tables/fs_sinks.json: a sink whose path may derive from an archive member name outside create_file is a violation. "
-               "(R16.5) the destination of create_file is created empty (File::create / create_new / OpenOptions with create+truncate). Symlink races and extracted content are runtime and not decided.")
+               "(R16.5) the destination of create_file is created empty (File::create / create_new / OpenOptions with create+truncate); (R16.6) FileWriter::write reopens an evicted destination in append mode, so later blocks of a member continue where the earlier ones stopped. Symlink races and extracted content are runtime and not decided.")
 TRUSTED = ['rustc MIR', 'std::path::Path::{components,starts_with,parent}', 'std::fs::canonicalize']
 ASSUMPTIONS = ['no concurrent modification of the output directory (symlink race) during extraction']
 
